@@ -8,3 +8,6 @@ impl vstd::std_specs::ops::NegSpecImpl for BorrowedAmount {
     open spec fn neg_req(self) -> bool { true }
     open spec fn neg_spec(self) -> BorrowedAmount { arbitrary() }
 }
+
+// stand-in for the two amount members of single_entry::Txn read by dest_amount (R17 free variables)
+pub struct TxnAmounts { pub amount: OwnedAmount }
